@@ -296,7 +296,8 @@ func main() {
 	r.Set("small_list_shapes", len(smallLists()))
 
 	// ---- large lists
-	for _, n := range []int{19, 255} {
+	bigNs := []int{5, 6, 7, 8, 9, 10, 11, 12, 13, 14, 15, 16, 17, 18, 19, 20, 64, 128, 255}
+	for _, n := range bigNs {
 		list := keysRange(n)
 		q := 2*n/3 + 1
 		var bases [][]elem
@@ -325,6 +326,10 @@ func main() {
 		bases = append(bases, spread)
 		for i := 0; i < n; i++ { // all single signers
 			bases = append(bases, []elem{{i, i, 0}})
+		}
+		if n != 19 && n != 255 && !r.Thorough() {
+			// intermediate sizes (quick): quorum runs at both ends and the spread subset, every corruption
+			bases = [][]elem{mk(0, q), mk(n-q, q), mk(0, n), spread}
 		}
 		if n == 255 && !r.Thorough() {
 			// quick tier: n=255 corruptions only on the spread quorum and the boundary runs at the start
@@ -400,7 +405,7 @@ func main() {
 	r.Set("accepted", int(accepted))
 	r.Set("rejected", int(rejected))
 	r.Set("variant", variant)
-	r.Set("rule", "distinct (guardian list shape, signature sequence) pairs: 14 list shapes of length 0..4 incl. repeated addresses x all sequences of length <=2 over (index 0..n,255) x (4 keys + outsider) x 9 corruption kinds, all uncorrupted sequences of length 3..min(n+1,4), every valid subset with every single corruption; n=19 and n=255: runs/spread subsets of sizes 1,2,q-1,q,q+1,n at 3 placements, all single signers, each with every single-step corruption (quick tier samples 12 positions on runs longer than 40). Enumeration is duplicate-free by construction; accepted/rejected counts show both outcomes occur.")
+	r.Set("rule", "distinct (guardian list shape, signature sequence) pairs: 14 list shapes of length 0..4 incl. repeated addresses x all sequences of length <=2 over (index 0..n,255) x (4 keys + outsider) x 9 corruption kinds, all uncorrupted sequences of length 3..min(n+1,4), every valid subset with every single corruption; n in 5..20, 64, 128 (quorum runs at both ends, full set, spread subset) and n=19, n=255 in full: runs/spread subsets of sizes 1,2,q-1,q,q+1,n at 3 placements, all single signers, each with every single-step corruption (quick tier samples 12 positions on runs longer than 40). Enumeration is duplicate-free by construction; accepted/rejected counts show both outcomes occur.")
 	if os.Getenv("VERIF_SUB") == "" {
 		if err := auxCmd.Wait(); err != nil {
 			ev.Broken("explorer-backend variant failed: %v", err)
